@@ -32,7 +32,7 @@ MANIFEST_ENTRY = {
             "other than a chunk header or the end node carries the used mark), from which: after any history dealloc (and realloc) of ANY non-nil pointer that is "
             "not a live block panics - double frees, pointers of an earlier generation, pointers into payloads, one past the end of the buffer "
             "(C11_heap_mem_invalid_free_reported, full strength after the repairs 9ef0717 and d9328b9). The size clause of the heap hypothesis is exactly the check of add_memory_region (room for two nodes, repair 23ac203) and the end node is "
-            "16-aligned for every configuration (C11_heap_geometry), so the word-addressed memory of the model is exact (C11_heap_mem_writes_aligned). Every write of the memory-level heap goes to a header word of an old or new chunk, so no operation changes a word of a block that stays live (C11_heap_mem_payload_frame). The derived operations of Allocator_implement_interface (alloc0/realloc0/x*/span*/new/delete) are modelled "
+            "16-aligned for every configuration (C11_heap_geometry), so the word-addressed memory of the model is exact (C11_heap_mem_writes_aligned). ONE OPEN FINDING: AlignedAllocator:alloc(0) returns a pointer although documented to return nilptr (C11_aligned_alloc_zero_refuted). Every write of the memory-level heap goes to a header word of an old or new chunk, so no operation changes a word of a block that stays live (C11_heap_mem_payload_frame). The derived operations of Allocator_implement_interface (alloc0/realloc0/x*/span*/new/delete) are modelled "
             "generically over the primitives with theorems that they are the stated primitive calls; span counts and AlignedAllocator requests never wrap "
             "(C11_arena_span_in, C11_aligned_fits: full strength after the repairs 942989e, 532034f). TESTING ONLY (shadow-map oracle on the real allocators): "
             "heap/stack/pool payload contents at the memory level, AlignedAllocator over whole histories, the derived operations on the real code, release builds. "
@@ -55,6 +55,7 @@ THEOREM_CLASSES = {
     "C11_heap_mem_invalid_free_reported": "main", "C11_heap_mem_invalid_free_reported_full": "corollary",
     "C11_heap_mem_invalid_realloc_reported": "corollary",
     "C11_heap_mem_payload_frame": "main", "C11_heap_mem_writes_aligned": "main", "C11_heap_geometry": "definitional",
+    "C11_heap_deallocall_clears_iff_policy": "main", "C11_aligned_alloc_zero_refuted": "refutation",
     "C11_heap_realloc_preserves": "main", "C11_heap_alloc0_zeroes": "definitional", "C11_heap_realloc0_zeroes": "definitional",
     "C11_iface_alloc0": "definitional", "C11_iface_xalloc": "definitional", "C11_iface_xrealloc": "definitional",
     "C11_iface_realloc0": "definitional", "C11_iface_spanalloc": "main", "C11_iface_spanrealloc": "definitional",
@@ -66,7 +67,7 @@ ALLOWED_AXIOMS = []
 TRUSTED_BASE = [
     "coqc 8.16.1 kernel (vm_compute used for parameter facts and refutation witnesses; no native_compute)",
     "no axioms: every theorem of coq/C11/Properties.v is 'Closed under the global context'; models mirror lib/allocators after the repairs 484ce8f, 961d315, 942c78c, b8d094a, 942989e, 532034f, 9ef0717, d9328b9, 23ac203",
-    "translator checks/C11.py:gen (regex scrape of ALLOC_ALIGN/MIN_ALLOC_SIZE/BIN_COUNT/BIN_MAX_LOOKUPS/NODE_COOKIE/HeapNode fields/get_bin_index constants in heap.nelua, StackAllocHeader + static asserts in stack.nelua, default ALIGN in arena.nelua; typedefs.maxalign and pointer size probed through the real compiler)",
+    "translator checks/C11.py:gen (regex scrape of ALLOC_ALIGN/MIN_ALLOC_SIZE/BIN_COUNT/BIN_MAX_LOOKUPS/NODE_COOKIE/HeapNode fields/get_bin_index constants in heap.nelua, the mark-clearing walk of HeapAllocatorT:deallocall as the boolean DEALLOCALL_CLEARS_MARKS, StackAllocHeader + static asserts in stack.nelua, default ALIGN in arena.nelua; typedefs.maxalign and pointer size probed through the real compiler)",
     "extraction: Require Extraction + ExtrOcamlBasic only; Z/positive/nat stay Coq inductives; no Extract Constant of our own",
     "ocaml/zutil.ml + coq/C11/driver.ml (line protocol, handle table, closures handing an instance's primitives to the extracted interface wrappers, printing of the model state), harness/C11/driver.nelua (calls the allocators, keeps the handle table, prints offsets and internal state read through the allocator records), OCaml 4.13.1, gcc, the Nelua compiler itself (the driver is compiled by it, default checked build)",
     "modelled rather than verified: the allocators are mirrored by hand in coq/C11/Model.v (arena/stack/pool), Heap.v (memory-level heap), HeapA.v (abstract heap), Iface.v (derived operations), Aligned.v; the tie is the line-by-line correspondence of offsets and internal state on every check. Heap.v -> HeapA.v is NOT trusted: it is the proved refinement of coq/C11/Refine*.v",
@@ -138,9 +139,16 @@ def gen(ctx):
     order = ["ARENA_DEFAULT_ALIGN", "STACK_DEFAULT_ALIGN", "STACK_MIN_ALIGN", "STACK_MAX_SIZE", "STACK_HEADER_SIZE",
              "ALLOC_ALIGN", "MIN_ALLOC_SIZE", "BIN_COUNT", "BIN_MAX_LOOKUPS", "NODE_COOKIE", "HEAP_NODE_SIZE",
              "BIN_MIN_LOG", "BIN_CLZ_BASE"]
+    # discriminator of repair 9ef0717: does HeapAllocatorT:deallocall walk the chunks and clear their used marks (and the end node's)?
+    dall = _need(r"function HeapAllocatorT:deallocall\(\): void(.*?)self\.initialized = false", heap, "HeapAllocatorT:deallocall", re.S).group(1)
+    walk = re.search(r"while\s+\(@usize\)\(node\)\s*<\s*heap_end\s+do(.*?)\n\s*end(.*)", dall, re.S)
+    clears = bool(walk and re.search(r"node\.next\s*=\s*nilptr", walk.group(1)) and re.search(r"node\.prev\s*=\s*nilptr", walk.group(1))
+                  and re.search(r"node\.next\s*=\s*nilptr", walk.group(2)) and re.search(r"node\.prev\s*=\s*nilptr", walk.group(2)))
+    out["DEALLOCALL_CLEARS_MARKS"] = clears
     txt = "(* GENERATED by checks/C11.py from /repo/lib/allocators - do not edit *)\nFrom Coq Require Import ZArith.\n"
     for k in order:
         txt += "Definition %s : Z := %d%%Z.\n" % (k, out[k])
+    txt += "Definition DEALLOCALL_CLEARS_MARKS : bool := %s.\n" % ("true" if clears else "false")
     vlib.write_if_changed(os.path.join(vlib.coq_dir(ID), "Gen.v"), txt)
     return out
 
@@ -316,6 +324,9 @@ class Shadow:
             if op in ("xalloc", "xalloc0", "new") and ptr is None and n > 0:
                 self.bad("x-returned-nil", "%s returned nil instead of raising 'out of memory'" % op)
             self.live.pop(h, None)
+            if ptr is not None and op != "new" and int(toks[2]) == 0:
+                # Allocator interface (allocator.nelua): "If size is zero or the operation fails, then returns nilptr"
+                self.bad("alloc-zero", "%s(0) returned a pointer (offset %d): a zero size allocation must return nilptr" % (op, ptr))
             if ptr is not None:
                 self.check_new(h, ptr, n)
                 self.live[h] = {"off": ptr, "size": n, "seed": None, "plen": 0}
@@ -341,7 +352,11 @@ class Shadow:
                     if got and int(got[0][1:]) == cnt and cnt != oldcnt:
                         self.bad("span-count", "%s(%d): count * #T overflows usize, yet a span of %d elements came back" % (op, cnt, cnt))
                     else:
-                        overflow = True     # correctly refused: nothing changes
+                        overflow = True     # correctly refused: nothing changes ...
+                        if old is not None and old["size"] // 4 == 0:
+                            # ... except that spanrealloc of an EMPTY span is a fresh spanalloc: the refused request comes back as the
+                            # empty span (nil, 0) and the zero-size block the handle held is dropped (both drivers overwrite the handle)
+                            self.live.pop(h, None)
             if overflow:
                 pass
             elif op.startswith("span") and old is not None and old["size"] // 4 == 0 and n > 0:
@@ -355,7 +370,8 @@ class Shadow:
                 self.live.pop(h, None)
                 if ptr is not None and old is not None:
                     self.bad("realloc-zero", "realloc to 0 returned a pointer")
-                elif ptr is not None:       # realloc(nil,0) = alloc(0): AlignedAllocator returns a zero-size block; both drivers drop the handle
+                elif ptr is not None:       # realloc(nil,0) = alloc(0): must be nilptr; both drivers drop the handle
+                    self.bad("alloc-zero", "%s(nilptr, 0) returned a pointer (offset %d): a zero size allocation must return nilptr" % (op, ptr))
                     self.check_new(h, ptr, 0)
             elif ptr is None or (op.startswith("span") and old is not None and ("n%d" % (n // 4)) not in rw):
                 if expect == "nonnil":
@@ -534,7 +550,8 @@ def _pick_size(kind, sh, rng, P, for_realloc=None):
             v = max(1, sh.cap - getattr(sh, "curr", 0) - 8 - sh.align + rng.choice([0, 1, 2, -1, 7, 8, sh.align, -sh.align]))
         elif q < .36:
             v = M64 - 8 - sh.align + rng.choice([-1, 0, 1, 2, 7, 8, sh.align - 1, sh.align, sh.align + 7])
-        return min(max(v, 0), M64 - 1)
+        # size 0 stays out of the random aligned streams while 'aligned(arena(1024,8),64): alloc 0' is an open finding
+        return min(max(v, 1 if AVOID_ALIGNED_ZERO else 0), M64 - 1)
     if kind in ("arena", "stack"):
         A, S = sh.align, sh.cap
         hdr = P["STACK_HEADER_SIZE"] if kind == "stack" else 0
@@ -806,7 +823,13 @@ REGRESSIONS = [
 
 # defects of the unchanged tree that are still open: replayed every run, reported under their exact key
 # (listed in known_findings/C11.json; proposed repair in harness/C11/proposed_repairs/)
-KNOWN_DEFECTS = []
+KNOWN_DEFECTS = [
+    ("aligned(arena(1024,8),64): alloc 0", "g0", ["alloc 0 0"],
+     "AlignedAllocator:alloc(0) returns a non-nil pointer although its own documentation and the Allocator interface say 'If size is zero or the "
+     "operation fails, then returns nilptr' (as every other allocator does): the wrapped allocator is asked for #pointer + ALIGN - 1 bytes that nobody "
+     "can use, realloc(nilptr, 0, 0) returns a pointer too, and the span operations drop such a block silently (spanrealloc of an empty span)"),
+]
+AVOID_ALIGNED_ZERO = any(k.startswith("aligned(") and k.endswith(": alloc 0") for k, _, _, _ in KNOWN_DEFECTS)
 
 # undefined behaviour visible under -fsanitize=alignment only (harness/C11/ubprobe.nelua); repaired by 23ac203, the probe must stay clean
 UB_KEY = "regression:heap(1001): alloc 8 [-fsanitize=alignment]"
@@ -1150,6 +1173,8 @@ def correspond(ctx):
 
 
 UNPROVED = [
+    "aligned_alloc_zero_nil_full (Aligned.v: alloc(0) returns nilptr, as documented) is FALSE of the code (C11_aligned_alloc_zero_refuted, open finding 'aligned(arena(1024,8),64): alloc 0', repair proposed in harness/C11/proposed_repairs/06-aligned-alloc-zero.diff); size 0 is kept out of the random aligned streams until it is repaired",
+    "of the repairs mirrored by hand only 9ef0717 (deallocall clears the marks) has a scraped discriminator the proofs depend on (Gen.DEALLOCALL_CLEARS_MARKS, deallocall_policy, C11_heap_deallocall_clears_iff_policy); for the others (overflow tests, get_ptr_node's size test, region geometry) a revert is noticed by the replayed witnesses and the correspondence, not by a broken proof",
     "heap payload CONTENTS at the memory level: C11_heap_mem_payload_frame proves that the allocator's own writes never touch a live payload, but realloc's memory.copy of a moved block is modelled on the separate byte function (hb_bytes) only, not in the word memory of Heap.v; stack/pool have no such memory-level frame theorem (their headers/links are in-band and covered by the safe theorems' client-write frame condition)",
     "pool: pool_good has no alignment clause beyond 'is a chunk start' (the alignment of T inside the chunk union is the compiler's layout, property C03)",
     "AlignedAllocator: alignment arithmetic, single-step alloc spec and 'fits in a fresh good block of the arena in any reachable arena state' are proved; a history-level theorem over aligned alloc/dealloc/realloc (headers of live aligned blocks are never overwritten) is not; its default realloc's memory.move is not a contents theorem",
